@@ -19,8 +19,8 @@ Definition wrap64 (z : Z) : Z := z mod two64.
 (* ---------- src/backend/interpreter/core/interpreter.h:393 Variable::calculate_flat_index ----------
    The loop runs from the last dimension to the first with the accumulators (flat_index,
    multiplier); [flat_rev] is that loop over the reversed lists. The same loop (same test, same
-   accumulators) is repeated verbatim in managers/arrays/manager.cpp:1343/1468 (array_dimensions
-   branch of get/setMultidimensionalArrayElement) and managers/structs/operations.cpp:756. *)
+   accumulators) is repeated verbatim in managers/arrays/manager.cpp:1347/1467 (array_dimensions
+   branch of get/setMultidimensionalArrayElement) and managers/structs/operations.cpp:759. *)
 Fixpoint flat_rev (dims idxs : list Z) (flat mult : Z) : option Z :=
   match dims, idxs with
   | [], [] => Some flat
@@ -44,12 +44,12 @@ Inductive eclass := EBounds    (* message contains "bounds": classified IndexOut
                   | EOther.    (* any other runtime_error text: CheckedError / Custom *)
 
 (* Does this site convert the int64 index to int before testing it?
-   ANamed 1-D read : no  - access/array.cpp:776 (flat_index int64), services/expression_service.cpp:86
-   ANamed 1-D write: yes - executors/assignments/simple_assignment.cpp:794, operators/assignment.cpp:151
-   ANamed N-D      : yes - managers/arrays/manager.cpp:1337 / 1455 (int_indices)
-   AMember 1-D     : yes - access/array.cpp:216, executors/statement_executor.cpp:439
-   AMember 2-D read: no  - managers/structs/operations.cpp:756 (int64 compare)
-   AMember 2-D write: yes - manager.cpp:1455 *)
+   ANamed 1-D read : no  - access/array.cpp:778 (flat_index int64), services/expression_service.cpp:88
+   ANamed 1-D write: yes - executors/assignments/simple_assignment.cpp:797, operators/assignment.cpp:152
+   ANamed N-D      : yes - managers/arrays/manager.cpp:1343 / 1461 (int_indices)
+   AMember 1-D     : yes - access/array.cpp:216, executors/statement_executor.cpp:440
+   AMember 2-D read: no  - managers/structs/operations.cpp:760 (int64 compare)
+   AMember 2-D write: yes - manager.cpp:1461 *)
 Definition narrows (ak : akind) (rank1 : bool) (m : rw) : bool :=
   match ak, rank1, m with
   | ANamed, true, Rd => false
@@ -77,10 +77,10 @@ Definition resolve (ak : akind) (m : rw) (dims : list Z) (stor : Z) (idxs : list
   | _ =>
       match ak, m, dims with
       | AMember, Rd, _ :: _ :: _ :: _ =>
-          (* access/array.cpp:71 recognises obj.member[i][j] only when exactly two subscripts sit on
+          (* access/array.cpp:71-73 recognises obj.member[i][j] only when exactly two subscripts sit on
              the member access; a read with three or more falls through to the generic path whose
              flat test against an empty value vector always fails. (Writes are collected for any
-             rank by simple_assignment.cpp:690 and succeed.) *)
+             rank by simple_assignment.cpp:687-715 and succeed.) *)
           inr EBounds
       | _, _, _ =>
           if negb (Nat.eqb (List.length dims) (List.length idxs)) then inr EOther else
@@ -91,7 +91,7 @@ Definition resolve (ak : akind) (m : rw) (dims : list Z) (stor : Z) (idxs : list
       end
   end.
 
-(* ---------- pointers into an array (core/pointer_metadata.cpp, operators/binary_unary.cpp:270) ----------
+(* ---------- pointers into an array (core/pointer_metadata.cpp, operators/binary_unary.cpp:273) ----------
    A pointer made by &a[i] carries element_index, address = base + 8*element_index and the
    range [array_start_addr, array_end_addr) = [base, base + 8*array_size). *)
 Definition ptr_arith (base n e : Z) (plus : bool) (k : Z) : option Z :=
@@ -107,15 +107,15 @@ Inductive res := RVal (v : Z) | RUnit | RErr (e : eclass).
 Inductive op :=
 | ORead (idxs : list Z)                 (* a[i]...[k] as an rvalue *)
 | OWrite (idxs : list Z) (v : Z)        (* a[i]...[k] = v; *)
-| OAddr (idxs : list Z)                 (* p = &a[i]...[k];      access/address_ops.cpp:131 *)
-| OPtrAdd (k : Z)                       (* p = p + k;            binary_unary.cpp:270 *)
+| OAddr (idxs : list Z)                 (* p = &a[i]...[k];      access/address_ops.cpp:132 *)
+| OPtrAdd (k : Z)                       (* p = p + k;            binary_unary.cpp:273 *)
 | OPtrSub (k : Z)                       (* p = p - k; *)
 | OPtrInc                               (* p++;                  operators/incdec.cpp:219 *)
 | OPtrDec                               (* p--; *)
 | OPtrRead (k : Z)                      (* p[k]                  access/array.cpp:324 *)
-| OPtrWrite (k v : Z)                   (* p[k] = v;             simple_assignment.cpp:794 + core/interpreter.cpp:1700 *)
-| ODeref                                (* *p                    pointer_metadata.cpp:95 *)
-| ODerefWrite (v : Z)                   (* *p = v;               pointer_metadata.cpp:138 *)
+| OPtrWrite (k v : Z)                   (* p[k] = v;             simple_assignment.cpp:797 + core/interpreter.cpp:1705 *)
+| ODeref                                (* *p                    pointer_metadata.cpp:94 *)
+| ODerefWrite (v : Z)                   (* *p = v;               pointer_metadata.cpp:137 *)
 | ODerefAdd (k : Z).                    (* *(p + k) : temporary pointer, p itself unchanged *)
 
 Definition getc (k : Z) (l : list Z) : Z := nth (Z.to_nat k) l 0.
@@ -129,7 +129,7 @@ Definition upd (k v : Z) (l : list Z) : list Z := upd_nat (Z.to_nat k) v l.
 
 Definition zlen (l : list Z) : Z := Z.of_nat (List.length l).
 (* size of array_values: the 1-D vector; N-D arrays keep their data in multidim_array_values and
-   leave array_values empty, which is what p[k] tests against (array.cpp:446, interpreter.cpp:1770) *)
+   leave array_values empty, which is what p[k] tests against (array.cpp:447, interpreter.cpp:1705 ff.) *)
 Definition av_size (dims : list Z) : Z := match dims with [n] => n | _ => 0 end.
 
 Definition step (ak : akind) (dims : list Z) (base : Z) (s : st) (o : op) : st * res :=
@@ -147,12 +147,12 @@ Definition step (ak : akind) (dims : list Z) (base : Z) (s : st) (o : op) : st *
       end
   | OAddr idxs =>
       match dims with
-      | [d] =>                                   (* address_ops.cpp:184: int64 test against array_size *)
+      | [d] =>                                   (* address_ops.cpp:189: int64 test against array_size *)
           match idxs with
           | [i] => if (i <? 0) || (d <=? i) then (s, RErr EBounds) else (mkst (cells s) (Some i), RUnit)
           | _ => (s, RErr EOther)
           end
-      | _ =>                                     (* address_ops.cpp:167: vector<int>(indices) + calculate_flat_index *)
+      | _ =>                                     (* address_ops.cpp:170: vector<int>(indices) + calculate_flat_index *)
           match calc_flat dims (map narrow32 idxs) with
           | Some f => (mkst (cells s) (Some f), RUnit)
           | None => (s, RErr EBounds)
@@ -233,7 +233,7 @@ Fixpoint run_plain (ak : akind) (dims : list Z) (base : Z) (ops : list op) (s : 
       end
   end.
 
-(* Every access wrapped in `checked`/`try` (operators/error_handling.cpp:130): the runtime_error
+(* Every access wrapped in `checked`/`try` (operators/error_handling.cpp:140-162): the runtime_error
    is caught and turned into an Err value, the run goes on. *)
 Fixpoint run_checked (ak : akind) (dims : list Z) (base : Z) (ops : list op) (s : st) : list res * st :=
   match ops with
@@ -243,7 +243,7 @@ Fixpoint run_checked (ak : akind) (dims : list Z) (base : Z) (ops : list op) (s 
       let (rs, s'') := run_checked ak dims base os s' in (r :: rs, s'')
   end.
 
-(* error_handling.cpp:30 classify_runtime_error, restricted to the two classes the array paths
+(* error_handling.cpp:29 classify_runtime_error, restricted to the two classes the array paths
    produce; is_checked selects the fallback variant. *)
 Inductive variant := VIndexOutOfBounds | VChecked | VCustom.
 Definition classify (e : eclass) (is_checked : bool) : variant :=
@@ -252,7 +252,7 @@ Definition classify (e : eclass) (is_checked : bool) : variant :=
   | EOther => if is_checked then VChecked else VCustom
   end.
 
-(* ---------- functions/call_impl.cpp:2904 array_get_int / 2932 array_set_int ----------
+(* ---------- functions/call_impl.cpp:2906 array_get_int / 2934 array_set_int ----------
    Raw memory behind a malloc/new pointer; no extent is known to the interpreter. The only tests
    are ptr == 0 and index < 0, and neither raises: a message goes to stderr and 0 is returned. *)
 Definition builtin_get (heap : Z -> Z) (index : Z) : res :=
